@@ -81,9 +81,22 @@ for pid in sorted(PROPS):
     sds = ', '.join(f"{s}{' (after strengthening)' if missed else ''}" for s, missed in sd) or '—'
     rows.append(f"| {pid} | {levels.get(pid, cfg.get('level', '?'))} | {model} / {proofs} | {obl} | {qs} | {ts} | {sds} |")
 table = '\n'.join(rows)
+n_seeds = sum(len(v) for v in seeds.values())
+n_missed = sum(1 for v in seeds.values() for (_, missed) in v if missed)
+stats = (f"**Seeded-change campaign in numbers**: {n_seeds} changes by independent sub-agents over "
+         f"{len(seeds)} properties (each compiles, passes all 690 tests unedited, has a failing demo); "
+         f"{n_seeds - n_missed} were reported by the check as it stood when the change arrived, {n_missed} were missed at first "
+         f"and each of those led to a new generator family, model or obligation (marked *after strengthening* in the table above); "
+         f"all {n_seeds} are reported now. The side observations the agents made on the unmodified compiler led to "
+         f"further `fix:` commits (see the table of fixes).")
 s = open('DESIGN.md').read()
 b, e = '<!-- status-table-begin -->', '<!-- status-table-end -->'
 if b in s and e in s:
     s = s[:s.index(b) + len(b)] + '\n' + table + '\n' + s[s.index(e):]
+    open('DESIGN.md', 'w').write(s)
+b2, e2 = '<!-- seed-stats-begin -->', '<!-- seed-stats-end -->'
+s = open('DESIGN.md').read()
+if b2 in s and e2 in s:
+    s = s[:s.index(b2) + len(b2)] + '\n' + stats + '\n' + s[s.index(e2):]
     open('DESIGN.md', 'w').write(s)
 print(table)
